@@ -41,13 +41,13 @@ def S(profile, quick, thorough, oracles_, **kw):
 
 PROPS = {
     "C01": dict(lean=["Orda.Props.C01"], rule="a history is non-trivial when at least one operation of another replica was delivered after a concurrent local operation; distinct = distinct command sequences (client ids erased)",
-                slices=[S("conv", 400, 6000, ["corr", "converge", "spec", "no_panic"]), S("tx", 200, 3000, ["corr", "converge"])], assumptions=REPLICA_ASSUMPTIONS),
+                slices=[S("conv", 400, 6000, ["corr", "converge", "spec", "no_panic"]), S("tx", 200, 3000, ["corr", "converge", "doc_refs_unique"]), S("ids", 150, 2000, ["corr", "converge", "doc_refs_unique"])], assumptions=REPLICA_ASSUMPTIONS),
     "C02": dict(lean=["Orda.Props.C02"], rule="non-trivial: ≥2 replicas issued operations on the same key/position concurrently (a delivery happened after a local call); distinct command sequences",
-                slices=[S("conf", 500, 8000, ["corr", "spec", "converge"])], assumptions=REPLICA_ASSUMPTIONS),
+                slices=[S("conf", 500, 8000, ["corr", "spec", "converge"]), S("hashgrid", 1, 2, ["corr", "hash_unique"])], assumptions=REPLICA_ASSUMPTIONS),
     "C03": dict(lean=["Orda.Props.C03"], rule="non-trivial: the single-replica history contains at least one refused (invalid) call and one accepted call; distinct command sequences",
                 slices=[S("single", 400, 6000, ["corr", "spec", "plain_doc", "err_noop", "no_panic"])], assumptions=REPLICA_ASSUMPTIONS[:1]),
     "C04": dict(lean=["Orda.Props.C04"], rule="non-trivial: concurrent inserts or an insert next to a tombstone were delivered; every step observed on the acting replica (full node sequence incl. tombstones)",
-                slices=[S("order", 300, 5000, ["corr", "list_order", "converge", "spec"])], assumptions=REPLICA_ASSUMPTIONS),
+                slices=[S("order", 300, 5000, ["corr", "list_order", "converge", "spec"]), S("tx", 200, 3000, ["corr", "converge", "list_order"]), S("hashgrid", 1, 2, ["corr", "hash_unique"])], assumptions=REPLICA_ASSUMPTIONS),
     "C09": dict(lean=["Orda.Props.C09"], rule="non-trivial: the history contains a failing transaction after ≥1 earlier operation, or a mutated remote unit; distinct command sequences",
                 slices=[S("tx", 400, 6000, ["corr", "tx_atomic", "converge"])], assumptions=REPLICA_ASSUMPTIONS),
     "C10": dict(lean=["Orda.Props.C10"], rule="non-trivial: a snapshot round trip was taken from a state with ≥1 tombstone or remote operation and followed by ≥1 continuation step on both original and copy",
@@ -57,7 +57,7 @@ PROPS = {
     "C19": dict(lean=["Orda.Props.C19"], rule="non-trivial: a PatchByJSON / REST patch whose script has ≥2 operations or touches a nested path, on a document reached by a multi-replica history; jdiff lines: tree pairs with a non-empty script; distinct command sequences",
                 slices=[S("patch", 80, 1200, ["corr", "patch_target", "converge", "no_panic"]), S("rest", 50, 700, ["corr", "patch_target", "sconverge", "loginv"])], assumptions=REPLICA_ASSUMPTIONS + SERVICE_ASSUMPTIONS[:2]),
     "C15": dict(lean=["Orda.Props.C15"], rule="non-trivial: history with failing calls, rollbacks or remote deliveries between local operations; grid slice: every (lamport, delimiter) pair of the grid",
-                slices=[S("ids", 300, 5000, ["corr", "seq_gapless", "no_panic"]), S("hashgrid", 1, 4, ["corr", "hash_unique"])],
+                slices=[S("ids", 300, 5000, ["corr", "seq_gapless", "doc_refs_unique", "no_panic"]), S("hashgrid", 1, 4, ["corr", "hash_unique"])],
                 assumptions=REPLICA_ASSUMPTIONS),
     "C05": dict(lean=["Orda.Props.C05"], rule="non-trivial: ≥2 clients pushed operations to one datatype through the real service and every client synced to quiescence; entry modes create/subscribe/subscribe-or-create and late subscribers occur; distinct command sequences",
                 slices=[S("svc", 90, 1400, ["corr", "sconverge", "loginv", "no_panic"])], assumptions=SERVICE_ASSUMPTIONS),
